@@ -464,7 +464,8 @@ def _livepatch__class(oldclass, newclass, modname, cache, visit_stack):
         delattr(oldclass, name)
     for name in newnames - oldnames:
         setattr(oldclass, name, newdict[name])
-    oldclass.__bases__ = newclass.__bases__
+    oldclass.__bases__ = _livepatch__bases(
+        oldclass, newclass, modname, cache, visit_stack)
     names = oldnames & newnames
     names.difference_update(olddict.get("__slots__", []))
     names.discard("__slots__")
@@ -482,6 +483,35 @@ def _livepatch__class(oldclass, newclass, modname, cache, visit_stack):
         _livepatch__setattr(
             oldclass, newclass, name, modname, cache, visit_stack)
     return oldclass
+
+
+def _livepatch__bases(oldclass, newclass, modname, cache, visit_stack):
+    """
+    Compute the new ``__bases__`` of a class that is being livepatched.
+
+    ``newclass.__bases__`` refers to classes of the scratch module.  A base
+    that is the new version of a class we livepatch must be replaced by the
+    livepatched old class; otherwise subclass relationships between classes
+    of the reloaded module would be lost, e.g. after reloading ``class C`` /
+    ``class D(C)``, ``issubclass(m.D, m.C)`` would be ``False``.
+    """
+    oldbases = dict(((getattr(b, "__module__", None), b.__name__), b)
+                    for b in reversed(oldclass.__bases__))
+    # Classes that have already been livepatched, by id of the new class.
+    updated = dict((newid, result)
+                   for (oldid, newid), result in list(cache.items()))
+    bases = []
+    for newbase in newclass.__bases__:
+        oldbase = oldbases.get(
+            (getattr(newbase, "__module__", None), newbase.__name__))
+        if oldbase is not None:
+            # Same base class as before, possibly redefined.
+            newbase = livepatch(oldbase, newbase, modname=modname,
+                                cache=cache, visit_stack=visit_stack)
+        else:
+            newbase = updated.get(id(newbase), newbase)
+        bases.append(newbase)
+    return tuple(bases)
 
 
 def _livepatch__object(oldobj, newobj, modname, cache, visit_stack):
